@@ -95,7 +95,7 @@ def _filter(args):
 
 
 def run(tier, seed):
-    n_chunks, per = (24, 50) if tier == "quick" else (64, 1200)
+    n_chunks, per = (32, 75) if tier == "quick" else (64, 1200)
     found = []
     for r in pmap(_filter, [(seed * 1000 + i, per) for i in range(n_chunks)]):
         found.extend(r)
